@@ -19,7 +19,8 @@ PROP = dict(
                "RFC 3629 calls well-formed without NUL).  The broker-level consequence (the will is published after "
                "e0 01 04) belongs to the session properties and is not checked here.",
     engines=[dict(hx="codec_enc")],
-    theorems=["C42_all", "C42_client", "C42_any_order", "C42_disconnect_will"],
+    theorems=["C42_all", "C42_client", "C42_any_order", "C42_disconnect_will", "C42_reference_roundtrip",
+              "C42_reference_accepts_encodings"],
     model_files="coq/Codec/Wire.v coq/Codec/Props.v coq/Codec/MochiCodec.v coq/Codec/SpecCodec.v coq/Codec/SpecBridge.v",
     rule="a Go reference encoder (independent of mochi's) writes generated client packets in every permitted form and "
          "property order; each stream goes through the real fixed-header/body decoders; the Coq reference decoder decides "
